@@ -80,6 +80,29 @@ class Lib(object):
             cx.axiom("str.contains.refl", z3.ForAll([x], f(x, x), patterns=[f(x, x)]))
         return f(s, sub)
 
+    def str_join(self, sep, seq_sv):
+        """sep.join(seq) for Seq[Str]: opaque, with the two concatenation laws the extractors need (assumed facts about str.join)"""
+        cx = self.cx
+        t = seq_sv.t
+        f = self.sf("join_" + t.name.replace("[", "_").replace("]", "_"), cx.Str, t.sort(cx), cx.Str)
+        if isinstance(t.elem, TStr) and "join" not in self._strf:
+            self._strf["join"] = 1
+            o = t.ops(cx)
+            cc = self.sf("concat", cx.Str, cx.Str, cx.Str)
+            self.str_concat(cx.str_lit(""), cx.str_lit(""))
+            sp = z3.Const("sep!j", cx.Str)
+            s = z3.Const("s!j", t.sort(cx))
+            n, m = z3.Ints("n!j m!j")
+            ln, nth, tk, dr = o["len"], o["nth"], o["take"], o["drop"]
+            cx.axiom("str.join.split", z3.ForAll([sp, s, n], z3.Implies(z3.And(0 < n, n < ln(s)),
+                     cc(cc(f(sp, tk(s, n)), sp), f(sp, dr(s, n))) == f(sp, s)),
+                     patterns=[z3.MultiPattern(f(sp, tk(s, n)), f(sp, dr(s, n)))]))
+            cx.axiom("str.join.cons", z3.ForAll([sp, s, n, m], z3.Implies(z3.And(0 <= n, m == n + 1, m < ln(s)),
+                     f(sp, dr(s, n)) == cc(cc(nth(s, n), sp), f(sp, dr(s, m)))),
+                     patterns=[z3.MultiPattern(f(sp, dr(s, n)), f(sp, dr(s, m)))]))
+            cx.axiom("str.join.drop0", z3.ForAll([sp, s], f(sp, dr(s, 0)) == f(sp, s), patterns=[f(sp, dr(s, 0))]))
+        return f(sep, seq_sv.e)
+
     def seq_contains(self, cont, item):
         cx = self.cx
         t = cont.t
